@@ -104,6 +104,29 @@ def run(ctx):
         if i % 2 == 0:
             routes += [("python warping_paths", wps_distance(case, False), None),
                        ("C warping_paths_fast", wps_distance(case, True), None)]
+        else:
+            # the same routines asked for the internal representation, and the path routine that reports a distance
+            if kind in ("maxdist", "both"):
+                exp_int = float(T // dc.SCALE) if (T != "inf" and T < case["max_dist_I"]) else math.inf
+            else:
+                exp_int = float(T // dc.SCALE) if T != "inf" else math.inf
+            for eng_c in (False, True):
+                v_int = wps_distance(case, eng_c, keep_int=True)
+                res.hit("route_keep_int_repr")
+                if v_int != impl.canon(exp_int) and not c02_agree(v_int, impl.canon(exp_int)):
+                    res.violations.append({"clause": "max_dist/use_pruning must give the unbounded distance or inf "
+                                                     "(accumulated-cost matrix routine, internal representation)",
+                                           "kind": kind, "engine": "C" if eng_c else "python", "case": case,
+                                           "got": v_int, "expected_internal": impl.canon(exp_int),
+                                           "kwargs": repr(dc.py_kwargs(case))})
+                if exp != "inf":
+                    v_p = path_distance(case, eng_c)
+                    res.hit("route_warping_path_distance")
+                    if v_p != exp and not c02_agree(v_p, exp):
+                        res.violations.append({"clause": "warping_path(include_distance=True) under max_dist/use_pruning "
+                                                         "reports the unbounded distance", "kind": kind,
+                                               "engine": "C" if eng_c else "python", "case": case, "got": v_p,
+                                               "expected": exp, "kwargs": repr(dc.py_kwargs(case))})
         for eng, val, out in routes:
             if out is None:
                 res.hit("route_" + eng.split()[1])
@@ -129,10 +152,28 @@ def run(ctx):
     return res
 
 
-def wps_distance(case, use_c):
+def path_distance(case, use_c):
     from dtaidistance import dtw, dtw_ndim
     nd = case.get("ndim", 1)
     kw = dc.py_kwargs(case)
+    s1 = impl.to_container(case["s1"], "numpy", nd)
+    s2 = impl.to_container(case["s2"], "numpy", nd)
+    mod = dtw if nd == 1 else dtw_ndim
+    try:
+        r_ = mod.warping_path(s1, s2, include_distance=True, use_c=use_c, **kw)
+        return impl.canon(r_[1])
+    except BaseException as e:
+        if isinstance(e, (KeyboardInterrupt, SystemExit)):
+            raise
+        return impl.exc_name(e)
+
+
+def wps_distance(case, use_c, keep_int=False):
+    from dtaidistance import dtw, dtw_ndim
+    nd = case.get("ndim", 1)
+    kw = dc.py_kwargs(case)
+    if keep_int:
+        kw["keep_int_repr"] = True
     s1 = impl.to_container(case["s1"], "numpy", nd)
     s2 = impl.to_container(case["s2"], "numpy", nd)
     mod = dtw if nd == 1 else dtw_ndim
